@@ -128,7 +128,7 @@ theorem fingerprints_expected : fingerprints = ([
   ("parser.go:Parser.ParseExpr", "b10ac96f2e0040b9"),
   ("parser.go:Parser.parseUnaryExpr", "a434cd8801f7b14b"),
   ("parser.go:Parser.parseRegex", "b400628da4ff5aae"),
-  ("parser.go:Parser.parseSet", "f573ccba69974014"),
+  ("parser.go:Parser.parseSet", "dfcead77ee007d7a"),
   ("parser.go:Parser.parseCall", "a5a3f25bfacc3db2"),
   ("parser.go:Parser.ParseVarRef", "62aeb86d59728677"),
   ("parser.go:Parser.parseSegmentedIdents", "34dcaf7afc1b52d1"),
